@@ -102,8 +102,10 @@ class Interstitial(object):
             # invertible, so just use solve for speed (omega is technically *negative* definite)
             self.bias_solver = lambda omega, b: -solve(-omega, b, assume_a='pos')
         else:
-            # pseudoinverse required:
-            self.bias_solver = lambda omega, b: np.dot(pinv(omega), b)
+            # pseudoinverse required: the null singular values of the assembled matrix are only zero to within a
+            # few times N*eps, right at the default cutoff of pinv; use a cutoff safely above that roundoff
+            self.bias_solver = lambda omega, b: np.dot(
+                pinv(omega, rtol=100 * max(omega.shape) * np.finfo(float).eps), b)
         # these pieces are needed in order to compute the elastodiffusion tensor
         self.sitegroupops = self.generateSiteGroupOps()  # list of group ops to take first rep. into whole list
         self.jumpgroupops = self.generateJumpGroupOps()  # list of group ops to take first rep. into whole list
